@@ -56,6 +56,7 @@ type World struct {
 	logger  *log.Logger
 	ch      chan int
 	mp      map[string]int
+	mp2     map[string]int
 	clos    map[string]ClosureSpec // key kind+slot
 	ncons   map[string]int
 	consult []Consult
@@ -63,6 +64,7 @@ type World struct {
 	// rawStamp: dumps show the lock-duration stamp (C10 only)
 	rawStamp bool
 	flipText map[string]string // current text of flip operators
+	pstrs    map[string]*string
 }
 
 func newWorld(x *Exec) *World {
@@ -74,8 +76,10 @@ func newWorld(x *Exec) *World {
 		logger:   log.New(io.Discard, "w", 0),
 		ch:       make(chan int),
 		mp:       map[string]int{"a": 1},
+		mp2:      map[string]int{"b": 1},
 		clos:     map[string]ClosureSpec{},
 		flipText: map[string]string{},
+		pstrs:    map[string]*string{},
 		ncons:    map[string]int{},
 		x:        x,
 	}
